@@ -20,13 +20,16 @@ LEVEL_NOTE = ("MODELLED (Model/HyperTree.lean) and proved for ALL heaps that are
               "moved with/without freeing the old node, junction split with new junction + connector). Theorems: every one of these "
               "returns (no assertion, no non-termination of the splice loop) and keeps WF (nothing dangling, both link directions agree) "
               "and IsTree (the predicate Check.Tree.isTree decides); any finite sequence of rewrites keeps them (improve_preserves_tree); "
-              "junction bookkeeping consistent and conserved; the set of leaves is kept under explicit side conditions (no leaf among the "
-              "merged nodes) which closed witnesses show to be necessary and which the C++ callers do NOT establish (see report: the tree "
+              "junction bookkeeping consistent and conserved; the set of leaves is kept by removeZeroLengthEdges under NoLeafZero and by the "
+              "junction move under MoveSafe (no leaf among the merged nodes) - side conditions which closed witnesses show to be necessary and which the C++ callers do NOT establish (see report: the tree "
               "loses a terminal node when a junction sits on a terminal; the connector itself stays attached, so the scene-level "
               "property is judged by the per-transaction checkers). "
-              "NOT modelled: MTST construction, shift-segment nudging (only as arbitrary coordinate changes), mergesWith/balance, "
-              "writeEdgesToConns / updateConnEnds / addConns (route and ConnEnd write-back); for those only the states the real code produced "
-              "on the generated histories are decided (per-run translation validation). "
+              "MODELLED AND TIED, NO THEOREM: listJunctionsAndConnectors, updateConnEnds (incl. travellingForwardOnConnector), "
+              "writeEdgesToConns (both passes). The model follows /repo since fix 6964517 (removeZeroLengthEdges hands the attributes of a "
+              "merged terminal leaf to the surviving node: theorem removeZeroLengthEdges_keeps_terminal_attrs); the behaviour as found is "
+              "kept as rzleNodeOld with its witness. "
+              "NOT modelled: MTST construction, shift-segment nudging (only as arbitrary coordinate changes), mergesWith/balance, addConns; "
+              "for those only the states the real code produced on the generated histories are decided (per-run translation validation). "
               "The driver's glue is trusted: numbering of vertices, slicing the global graph per hyperedge "
               "(fuelled BFS; a wrong slice can only make the proven check fail), canonical renaming of tree objects for the "
               "op-level comparison (breadth-first from a surviving node, following the edge lists in order), wording of diagnostics. "
@@ -35,8 +38,8 @@ LEVEL_NOTE = ("MODELLED (Model/HyperTree.lean) and proved for ALL heaps that are
               "(junction: Chebyshev distance <= 25 = largest idealNudgingDistance generated, because orthogonal "
               "nudging runs after the hyperedge code; terminal: on or inside the pin's shape) and either orientation "
               "of displayRoute() is accepted (the improver writes some routes target-to-source; one cause is modelled: "
-              "removeZeroLengthEdges deletes the far node of a zero-length last segment and with it isConnectorSource, "
-              "theorem rzle_drops_isConnectorSource_witness). "
+              "before fix 6964517 removeZeroLengthEdges deleted the far node of a zero-length last segment and with it isConnectorSource, "
+              "theorem rzle_drops_isConnectorSource_witness about rzleNodeOld; reversed routes dropped from 394 to 40 at seed 1). "
               "Junctions reported deleted stay allocated until the next transaction (deleteJunction only queues): "
               "live junctions = m_obstacles minus those reported deleted in this transaction, and they must be gone "
               "one transaction later. "
@@ -61,7 +64,8 @@ RULE = ("13 generator classes cycled: {no full rerouting at first | rerouting re
         "1-4 segments on a coarse grid with many coincident points, collinear overlapping first segments, a few oblique segments, fixed "
         "junctions, fixed-route connectors, 'odd' = junction on an inner node / flipped hasFixedRoute; 1-3 rounds of "
         "removeZeroLengthEdges(root) + moveJunctionAlongCommonEdge per junction until it returns null + emulated segment shifts; "
-        "comparison up to renaming after every call), ops-witness (the three closed witnesses of Props/C12Ops against the real code). "
+        "comparison up to renaming after every call, listJunctionsAndConnectors after every call, updateConnEnds and the write-back of all routes "
+        "at the end of the case), ops-witness (the three closed witnesses of Props/C12Ops against the real code). "
         "An ops case is non-trivial if some call changed the number of tree objects.")
 TRUSTED_BASE = ["Lean 4.33 kernel", "axioms: propext, Classical.choice, Quot.sound",
                 "ops harness: explicit-instantiation access to HyperedgeImprover's private members (maps, lists, the two private "
